@@ -116,6 +116,14 @@ func validateTrace(module, cfg, trace string, scratch string) (TLCRun, int) {
 		r.Infra = fmt.Errorf("trace spec produced no TRACE-DEPTH line: %s", tail(r.Out, 40))
 		return r, 0
 	}
+	// any TLC error other than the failed acceptance postcondition is a problem of the spec or the
+	// trace encoding, never a verdict about the code
+	for _, ln := range strings.Split(r.Out, "\n") {
+		if strings.HasPrefix(ln, "Error:") && !strings.Contains(ln, "Postcondition Accepted") {
+			r.Infra = fmt.Errorf("TLC error while validating %s: %s", filepath.Base(trace), tail(r.Out, 30))
+			return r, 0
+		}
+	}
 	if r.Depth == r.Total {
 		return r, 0
 	}
